@@ -16,6 +16,9 @@ CHECKS = {
  "C13": ("reference-model monitor (map keyed by bit string, brute-force longest match / covered set / order) over random lpm.Trie histories + persistence re-verification; race detector slice",
          "Exploration: seeded random histories over key widths 16/32/128 with prefixes nesting and diverging at every bit, Reuse/Clear, abandoned transactions and side branches; every Insert/Delete/Lookup/LookupExact/Prefix/LowerBound/All/Len result and every retained trie/iterator is compared with the model.",
          "Trusts the bit-string model; Lookup is asked only with full-length keys and stored prefixes (the domain of the statement).", "5/C13"),
+ "C17": ("reference-model monitor (Go map/set) over branching histories on a pool of part.Map/part.Set versions, JSON/YAML round trips; race detector on shared values",
+         "Exploration: seeded branching histories (every step derives from a random earlier version; sizes biased to 0..2 so each representation switch is crossed by every operator pair; MapTxn reuse after Commit interleaved with operations on the committed map; early-break iteration) with every pooled version re-verified after every step; plus 8 goroutines sharing one value under -race.",
+         "Trusts the Go map model; string keys are valid UTF-8; only encoder-produced JSON/YAML is decoded.", "5/C17"),
 }
 
 NOT_YET = "check not built yet in this session (planned: see DESIGN.md section 5)"
